@@ -29,6 +29,8 @@ GEOMS = {
     "square": dict(shape=(3 * N, 2 * N), chunks=(N, N)),
     "skinny": dict(shape=(8000, 48), chunks=(2000, 48)),
     "uneven": dict(shape=(3 * N + 50, 2 * N + 30), chunks=(N, N)),
+    # few rows, very long: a chunk reduced along axis 0 is as large as the input chunk
+    "wide": dict(shape=(6, 150_000), chunks=(2, 50_000)),
 }
 
 
@@ -91,12 +93,18 @@ OPS = {
     "diamond-fusable": lambda a: _xp().add(_xp().negative(a), _xp().abs(a)),
     "fan-in3": lambda a: _xp().add(_xp().add(_xp().negative(a), _xp().abs(a)), _xp().square(a)),
     "reduce-of-chain": lambda a: _xp().sum(_xp().multiply(_xp().negative(a), a), axis=0),
+    "mean-axis0": lambda a: _xp().mean(a, axis=0),
+    "sum-axis0-keepdims": lambda a: _xp().sum(a, axis=0, keepdims=True),
+    "argmax-axis1": lambda a: _xp().argmax(a, axis=1),
+    "repeated-heavy-pred": lambda a, b: (lambda y: _xp().multiply(y, y))(_xp().add(a, b)),
+    "repeated-heavy-pred-3": lambda a, b: (lambda y: _xp().add(_xp().multiply(y, y), y))(_xp().subtract(a, b)),
+    "slice-step-offset": lambda a: a[::2, 10:],
     "store": "store",
     "random": "random",
 }
 QUICK = ["negative", "add", "where", "sum-axis0", "mean-axis1", "var-axis0", "argmax", "cumsum-axis1", "transpose", "concat", "stack", "slice-step",
          "index-array", "roll", "repeat", "reshape", "rechunk", "matmul", "qr", "map_blocks", "chain5-fusable", "diamond-fusable", "fan-in3",
-         "reduce-of-chain", "tril", "pad", "unstack", "store"]
+         "reduce-of-chain", "tril", "pad", "unstack", "store", "mean-axis0", "repeated-heavy-pred", "repeated-heavy-pred-3", "argmax-axis1", "slice-step-offset"]
 
 
 def measure(item):
@@ -116,6 +124,9 @@ def measure(item):
         za = zarr.create_array(src, shape=shape, dtype=dtype, chunks=chunks, compressors=None)
         data = (np.arange(int(np.prod(shape)), dtype="f8").reshape(shape) % 977 + 1).astype(dtype)
         za[:] = data
+        src2 = w.store("src2")
+        zb = zarr.create_array(src2, shape=shape, dtype=dtype, chunks=chunks, compressors=None)
+        zb[:] = data[::-1]
         del data
 
         def run(traced):
@@ -128,7 +139,11 @@ def measure(item):
             elif OPS[name] == "random":
                 out = (cubed.random.random(shape, chunks=chunks, spec=spec),)
             else:
-                out = OPS[name](a)
+                import inspect
+                if len(inspect.signature(OPS[name]).parameters) == 2:
+                    out = OPS[name](a, cubed.from_zarr(src2, spec=spec))
+                else:
+                    out = OPS[name](a)
                 out = out if isinstance(out, tuple) else (out,)
             recs = []
 
@@ -176,7 +191,7 @@ def measure(item):
             if w2[0] < worst[0]:
                 worst = w2  # the confirmed (reproducible) figure is the smaller of the two measurements
             if w2[0] > 1.0 and first[0] > 1.0:
-                probs.append((dict(kind="task-exceeds-projected-mem", op=name, cubed_op=str(worst[2])),
+                probs.append((dict(kind="task-exceeds-projected-mem", op=name, cubed_op=str(worst[2]), optimize=optimize),
                               dict(name=name, geom=geom, dtype=dtype, compressor=comp, optimize=optimize),
                               f"{name} [{geom} {shape}/{chunks} {dtype} compressor={comp} optimize={optimize}]: task {worst[3]} of op {worst[2]} "
                               f"allocated {worst[4]} bytes (again: {w2[4]}), projected_mem is {worst[5]} (ratio {worst[0]:.3f})"))
@@ -201,6 +216,9 @@ def run(ctx):
         for geom in GEOMS:
             for opt in (True, False):
                 items.append((n, geom, "float64", "auto", opt))
+            if geom == "wide" and n in ("mean-axis0", "var-axis0", "sum-axis0", "argmax", "sum-int32", "nanmean"):
+                items.append((n, geom, "float32", "auto", False))
+                items.append((n, geom, "int8", "auto", False))
             if tier == "thorough":
                 items.append((n, geom, "float64", None, True))
                 items.append((n, geom, "float32", "auto", True))
